@@ -10,8 +10,10 @@ Real code executed symbolically (eko.couplings with np / float / scipy / beta_* 
      symbolic and the AD seed, so that beta0*a_ref*lmu = O(1) is kept to all orders.  Goal for QCD order n:
          lam * d a/dX + sum_{k<n} beta_k a^(k+2)  =  O(lam^(n+2)),          a(X=0) == a_ref   (identically)
      with beta_0 -> beta_0 + a_em*beta_(2,1) for fixed alpha_em and QED order >= 1 (a_em an O(1) symbol, returned unchanged).
-     Running alpha_em with QED order >= 1: the coupled equations hold to O(lam^3) in counting A ("beyond second order in the couplings", as the
-     statement says) and, in fixed-order counting B (lmu = O(1) symbolic seed), to O(lam^4) (the leading mixed terms beta_(2,1), beta_(1,2) are right).
+     Running alpha_em with QED order >= 1: the solution is claimed through second order in the couplings ("beyond second order", as the statement
+     says) with a_ref*lmu = O(1): the residual of the coupled equations is O(lam^4) in counting A (the mixed term -a^2 f(a_ref*lmu) is itself second order;
+     its residual is one power of lam higher because d/dlmu = lam d/dX) and in fixed-order counting B (lmu = O(1) symbolic seed).
+     Every logarithm taken by the closed forms has a positive argument on the perturbative domain (both LO denominators 1 + beta0 a_ref lmu > 0).
      beta coefficients are free symbols supplied through the module-level names beta_qcd / b_qcd / beta_qed / b_qed (argument-checked proxies),
      so one run covers every nf, nl.
 (ii) exact method.  scipy.integrate.solve_ivp is replaced by a stub that records (fun, t_span, y0, args, method, rtol) and returns fresh symbols
@@ -35,7 +37,7 @@ import numpy as realnp
 from .cplkit import *  # noqa
 from .kern import jet_tangent
 from .cplkit import _b, _sampler_tau
-from symx.solver import explore, prove_zero, prove_rel
+from symx.solver import explore, prove_zero, prove_rel, prove_regular
 from symx import harness as H
 
 MOD = "harness.C15"
@@ -136,7 +138,7 @@ def _novar(j):
     return Jet(j.v, [c.novar() for c in j.c], j.prec)
 
 
-def _zero_through(D, x, n, what, key, rp, sampler, lo=None, key_at=None):
+def _zero_through(D, x, n, what, key, rp, sampler, lo=None, key_at=None, candidates=()):
     """key_at: {k: key} overrides the violation key of single coefficients"""
     j = as_jet(x)
     if j.prec < n:
@@ -145,7 +147,7 @@ def _zero_through(D, x, n, what, key, rp, sampler, lo=None, key_at=None):
     ok = True
     for k in range(start, n):
         v = prove_zero(j._known(k), "%s: lam^%d coefficient == 0" % (what, k), timeout_ms=60000)
-        ok = D(v, key=(key_at or {}).get(k, key), replay=rp, sampler=sampler) and ok
+        ok = D(v, key=(key_at or {}).get(k, key), replay=rp, sampler=sampler, candidates=candidates) and ok
     return ok
 
 
@@ -238,7 +240,9 @@ def case_expanded_compute(log, em_running, orders):
 
         def run():
             mixed = em_running and q >= 1
-            top = (n + 2) if not mixed else (3 if counting == "A" else 4)
+            # mixed QCDxQED running: the solution is claimed through second order in the couplings, i.e. the RGE residual through lam^3 (one power of lam
+            # more than the solution, since d/dlmu = lam d/dX in counting A), in both countings
+            top = (n + 2) if not mixed else 4
             jetmod.set_cap(top + 1)
             sc = _make_sc(cpl, order, "expanded", em_running)
             bsym = BetaSyms(nf, nl)
@@ -261,9 +265,8 @@ def case_expanded_compute(log, em_running, orders):
                     assume(aem_sym, ">0")
                     aem = lam * aem_sym
                     if counting == "A":
+                        # perturbative domain: both couplings positive at both ends, i.e. both LO denominators positive -- nothing else
                         assume(1 + bsym.q0 * aem_sym * X, ">0")
-                        assume(1 + bsym.b0 * aem_sym * X, ">0")
-                        assume(1 + bsym.q0 * alpha * X, ">0")
                 else:
                     aem = SR.var("aem")
                     assume(aem, ">0")
@@ -276,6 +279,11 @@ def case_expanded_compute(log, em_running, orders):
                 tag = "compute[expanded, %s alpha_em] order (%d,%d) counting %s" % ("running" if em_running else "fixed", n, q, counting)
                 fn = "couplings_expanded_alphaem_running" if em_running else "couplings_expanded_fixed_alphaem"
                 rp = (MOD, "replay_compute", {"order": list(order), "em_running": em_running, "method": "expanded", "counting": counting})
+                rpm = (MOD, "replay_mixed", {"order": list(order)})
+                mixkey = {3: fn + ":mixed-term"} if (mixed and counting == "A") else None
+                # every log the closed forms take has a positive argument (and no denominator vanishes) on the perturbative domain
+                for vreg in prove_regular(prefix=tag + ": "):
+                    D(vreg, key=fn + ":log-domain", replay=rpm if mixed else rp, sampler=_sampler, candidates=_DOMAIN_CANDIDATES)
                 # QCD equation
                 if em_running:
                     mix = bsym.qcd[(2, 1)] * _novar(a_em) if q >= 1 else 0
@@ -288,11 +296,11 @@ def case_expanded_compute(log, em_running, orders):
                     direct = as_jet(cpl.expanded_n3lo(ref[0], b0eff, bsym.qcd[(3, 0)] / b0eff, bsym.qcd[(4, 0)] / b0eff, bsym.qcd[(5, 0)] / b0eff, lmu))
                     _zero_through(D, a_s - direct, top + 1, "%s: a_s == expanded_n3lo(a_ref, beta0_eff, beta_k/beta0_eff, lmu)" % tag, fn + ":n4_args", rp, _sampler)
                 else:
-                    _zero_through(D, res, top, "%s: d a_s/dlmu - beta_QCD(a_s,a_em)" % tag, fn + (":rge_qcd:n%d" % n if not (mixed and counting == "B") else ":rge_qcd_mixed"), rp, _sampler)
+                    _zero_through(D, res, top, "%s: d a_s/dlmu - beta_QCD(a_s,a_em)" % tag, fn + (":rge_qcd:n%d" % n if not (mixed and counting == "B") else ":rge_qcd_mixed"), rpm if mixed else rp, _sampler, key_at=mixkey, candidates=_MIXED_CANDIDATES if mixed else ())
                 # QED equation
                 if em_running and q >= 1:
                     res = ddl(a_em) + _rge_qcd(_novar(a_em), bsym.qed_list(q)) + bsym.qed[(1, 2)] * _novar(a_s) * _novar(a_em) ** 2
-                    _zero_through(D, res, top, "%s: d a_em/dlmu - beta_QED(a_s,a_em)" % tag, fn + (":rge_qed" if counting == "A" else ":rge_qed_mixed"), rp, _sampler)
+                    _zero_through(D, res, top, "%s: d a_em/dlmu - beta_QED(a_s,a_em)" % tag, fn + (":rge_qed" if counting == "A" else ":rge_qed_mixed"), rpm if mixed else rp, _sampler, key_at=mixkey, candidates=_MIXED_CANDIDATES if mixed else ())
                 else:
                     _zero_through(D, a_em - aem, top, "%s: a_em stays at its reference value" % tag, fn + ":aem_fixed", rp, _sampler)
                 # reference point
@@ -700,6 +708,67 @@ def replay_compute(point, order, em_running, method, counting="B"):
                 return {"detail": "expanded a_em - ODE solution at a_ref*(1,1/2,1/4,1/8) = %r scales like a^%.2f < a^4 (order %r, nf=%d, lmu=%r)" % (errs_e, ex, order, nf, lmu)}
         elif max(errs_e) > 1e-12 * a_em:
             return {"detail": "a_em moved although it does not run: deviations %r (order %r em_running=%r)" % (errs_e, order, em_running)}
+    return None
+
+
+_DOMAIN_CANDIDATES = [{"a_s": Fraction(35, 100) / Fraction(1256637, 100000), "a_em": Fraction(78, 10000) / Fraction(1256637, 100000), "lmu": Fraction(921, 100), "X": Fraction(921, 100), "nf": Fraction(4), "mu0": Fraction(2)},
+                      {"a_s": Fraction(21, 100) / Fraction(1256637, 100000), "a_em": Fraction(78, 10000) / Fraction(1256637, 100000), "lmu": Fraction(708, 100), "X": Fraction(708, 100), "nf": Fraction(5), "mu0": Fraction(5)}]
+
+
+_MIXED_CANDIDATES = [{"a_s": Fraction(25, 1000), "a_em": Fraction(6, 10000), "lmu": Fraction(3, 2), "X": Fraction(3, 2), "nf": Fraction(4), "mu0": Fraction(10)},
+                     {"a_s": Fraction(2, 100), "a_em": Fraction(7, 10000), "lmu": Fraction(-1), "X": Fraction(-1), "nf": Fraction(5), "mu0": Fraction(20)}]
+
+
+def replay_mixed(point, order):
+    """running alpha_em, QED order >= 1, real Couplings (expanded) inside one patch, above the tau mass.
+    (1) the result must be finite wherever both couplings are positive at both ends of the exact solution;
+    (2) the mixed QCDxQED correction D = a(a_s, a_em) - a(other coupling -> 0) of the expanded solution, compared with the same difference of the high-precision
+        solution of the coupled truncated RGEs (literature coefficients) at (l*a_ref, lmu/l), l = 1/4, 1/8: the ratio must tend to 1 (second order in the
+        couplings with a_ref*lmu fixed); a wrong function of a_ref*lmu shows as a ratio that stays away from 1."""
+    import math
+
+    order = tuple(order)
+    a_s = float(point.get("a_s", point.get("alpha", 0.02)))
+    a_em = float(point.get("a_em", point.get("alphaem", 0.0006)))
+    lmu = float(point.get("lmu", point.get("X", point.get("u", 2.0))))
+    mu0 = float(point.get("mu0", 10.0))
+    if not (0.006 <= a_s <= 0.0285 and 0.0002 <= a_em <= 0.00082 and 0.3 <= abs(lmu) <= 9.5 and mu0 > 1.9):
+        return None
+    nfs = (int(point["nf"]),) if "nf" in point and 3 <= int(point["nf"]) <= 6 else (4, 5)
+    for nf in nfs:
+        if mu0**2 * math.exp(lmu) <= 1.777**2 * 1.05:
+            continue
+        want = _ode(a_s, a_em, lmu, order, True, nf, 3)
+        if not (want[0] > 0 and want[1] > 0):
+            continue  # outside the perturbative domain
+        got = _real_sc(order, "expanded", True, a_s, a_em, nf, mu0).a(mu0**2 * math.exp(lmu))
+        if not (math.isfinite(got[0]) and math.isfinite(got[1])):
+            return {"detail": "expanded couplings %r are not finite at ln(mu^2/mu0^2)=%r from (a_s, a_em)=(%r, %r) at mu0=%r (order %r, nf=%d) although the coupled RGE solution %r is positive at both ends"
+                    % (list(got), lmu, a_s, a_em, mu0, order, nf, want)}
+        if abs(lmu) > 3.2:
+            continue
+        tiny = 1e-13
+        worst = None
+        for l in (0.25, 0.125):
+            lm = lmu / l
+            mu2 = mu0**2 * math.exp(lm)
+            if mu2 <= 1.777**2 * 1.05 or mu2 > 1e30:
+                worst = None
+                break
+            full = _real_sc(order, "expanded", True, a_s * l, a_em * l, nf, mu0).a(mu2)
+            no_em = _real_sc(order, "expanded", True, a_s * l, tiny, nf, mu0).a(mu2)
+            no_s = _real_sc(order, "expanded", True, tiny, a_em * l, nf, mu0).a(mu2)
+            o_full = _ode(a_s * l, a_em * l, lm, order, True, nf, 3)
+            o_no_em = _ode(a_s * l, tiny, lm, order, True, nf, 3)
+            o_no_s = _ode(tiny, a_em * l, lm, order, True, nf, 3)
+            ds, ds_o = full[0] - no_em[0], o_full[0] - o_no_em[0]
+            de, de_o = full[1] - no_s[1], o_full[1] - o_no_s[1]
+            if not all(math.isfinite(v) for v in (ds, de)):
+                return {"detail": "expanded couplings not finite at (l*a_ref, lmu/l), l=%r: %r" % (l, list(full))}
+            worst = (l, ds / ds_o, de / de_o)
+        if worst is not None and (abs(worst[1] - 1) > 0.25 or abs(worst[2] - 1) > 0.25):
+            return {"detail": "mixed QCDxQED term of the expanded solution over that of the coupled RGE solution at (l*a_ref, lmu/l), l=%r: a_s %.4f, a_em %.4f (must tend to 1; a_ref=(%r,%r), a_ref*lmu fixed, lmu=%r, order %r, nf=%d)"
+                    % (worst[0], worst[1], worst[2], a_s, a_em, lmu, order, nf)}
     return None
 
 
